@@ -453,6 +453,9 @@ pub(crate) fn resolve<'a>(
                     .collect::<Vec<_>>();
                 resolve_list(schema, ctx, type_ref, &values).await
             }
+            // `FieldValue::NULL` is the null value of a list position too, e.g. for
+            // an item of a list of lists.
+            (TypeRef::List(_), Some(FieldValue(FieldValueInner::Value(Value::Null)))) => Ok(None),
             (TypeRef::List(_), Some(_)) => Err(ctx.set_error_path(
                 Error::new("internal: expects an array").into_server_error(ctx.item.pos),
             )),
